@@ -124,6 +124,12 @@ Proof. exact ex_nontrivial. Qed.
    Second pass: Hugr.resolve_extensions on the whole HUGR (model/ResolveHugr.v over the HUGR record of
    model/SerialHugr.v: node table with holes, operation / parent / ordered children / metadata / recorded port
    counts per node, links, root; constants hold the HUGRs of their function values, to any depth).
+
+   Scope: the property speaks of the opaque operations of the HUGR being resolved, i.e. of its nodes, and of the
+   depths "sums, function types, type arguments, arguments of opaque types".  The HUGR held by a function value
+   inside a constant is not made of nodes of that HUGR: hugr-py's resolve_extensions leaves it alone, and under
+   "leaves everything else untouched" it belongs to the frame (C11_hugr_constants_untouched).  hugr-core's
+   resolve_value_exts does descend into function values; that difference is outside this property.
    ==================================================================================================== *)
 
 (* ---- the loop `for node in self: self[node].op = ...` rewrites `op` fields and nothing else: it equals
@@ -140,35 +146,40 @@ Theorem C11_hugr_frame : forall reg h,
   length (h_nodes (resolve_extensions reg h)) = length (h_nodes h).
 Proof. exact hugr_frame_thm. Qed.
 
-(* ---- (a) exactly the opaque operations the registry defines are replaced, at every node of the HUGR and of every
-   HUGR inside a function-valued constant, each as the per-operation relation ROp says; all else identical *)
+(* ---- (a) exactly the opaque operations the registry defines are replaced, at every node of the HUGR, each as the
+   per-operation relation ROp says; every other operation - constants with all they hold included - identical *)
 Theorem C11_hugr_resolve_pointwise : forall reg, RegWF reg ->
-  (forall h, RHugr reg h (resolve_extensions reg h)) /\
-  (forall o, RHop reg o (resolve_hop reg o)) /\ (forall v, RVal reg v (resolve_val reg v)).
+  (forall h, RHugr reg h (resolve_extensions reg h)) /\ (forall o, RHop reg o (resolve_hop reg o)).
 Proof. exact hugr_resolve_pointwise_thm. Qed.
 
-(* ---- (a) an operation changes iff it is, or holds at some depth, an opaque operation with a definition in the
-   registry; a HUGR without any is returned as it was; a node without any keeps its whole entry *)
+(* ---- (a) a node's operation changes iff it is an opaque operation with a definition in the registry; a HUGR
+   without any is returned as it was; a node without one keeps its whole entry *)
 Theorem C11_hugr_only_defined_ops_change : forall reg,
-  (forall o, hop_all (untouchable_op reg) o = true -> resolve_hop reg o = o) /\
-  (RegWF reg -> forall o, resolve_hop reg o = o -> hop_all (untouchable_op reg) o = true) /\
+  (forall o, hop_holds (untouchable_op reg) o = true -> resolve_hop reg o = o) /\
+  (RegWF reg -> forall o, resolve_hop reg o = o -> hop_holds (untouchable_op reg) o = true) /\
   (forall h, hugr_all (untouchable_op reg) h = true -> resolve_extensions reg h = h) /\
-  (forall h i n, get_node h i = Some n -> hop_all (untouchable_op reg) (SerialHugr.n_op n) = true ->
+  (forall h i n, get_node h i = Some n -> hop_holds (untouchable_op reg) (SerialHugr.n_op n) = true ->
                  get_node (resolve_extensions reg h) i = Some n).
 Proof. exact hugr_only_defined_ops_change_thm. Qed.
 
+(* ---- (a) function-valued constants and their bodies are part of the frame: a constant is returned as it is
+   whatever its value holds, its node entry is unchanged, and both the monitor's boolean and the relation RHop
+   accept nothing but the identical constant (a change inside the HUGR of a function value is a violation of
+   "leaves everything else untouched") *)
+Theorem C11_hugr_constants_untouched : forall reg,
+  (forall v, resolve_hop reg (HConst v) = HConst v) /\
+  (forall h i n v, get_node h i = Some n -> SerialHugr.n_op n = HConst v ->
+                   get_node (resolve_extensions reg h) i = Some n) /\
+  (forall v o, rhop_b reg (HConst v) o = true -> o = HConst v) /\
+  (forall v o, RHop reg (HConst v) o -> o = HConst v).
+Proof. exact hugr_constants_untouched_thm. Qed.
+
 (* ---- every depth, at HUGR level: in a HUGR as loading produces it (opaque operations only, no definition-backed
-   type) no resolved operation keeps a resolvable opaque type in its signature or type arguments, at any node of
-   the HUGR or of a HUGR nested in a constant *)
+   type) no resolved operation keeps a resolvable opaque type at any depth of its signature or type arguments *)
 Theorem C11_hugr_reaches_every_depth : forall reg, RegWF reg ->
   (forall h, hugr_all op_loaded h = true -> hugr_all (op_clean reg) (resolve_extensions reg h) = true) /\
   (forall o, op_loaded o = true -> op_clean reg (resolve_op reg o) = true).
 Proof. exact hugr_reaches_every_depth_thm. Qed.
-
-(* the body of a function value is resolved by the very loop of resolve_extensions *)
-Theorem C11_hugr_function_values_by_the_same_loop : forall reg b,
-  resolve_val reg (VFunc b) = VFunc (resolve_extensions reg b).
-Proof. exact resolve_val_func_loop. Qed.
 
 (* ---- (b) resolving twice equals resolving once, for the whole HUGR (no guard) *)
 Theorem C11_hugr_idempotent : forall reg,
@@ -177,8 +188,9 @@ Theorem C11_hugr_idempotent : forall reg,
 Proof. exact hugr_idempotent_thm. Qed.
 
 (* ---- (c) the serialised document (Hugr._to_serial of model/SerialHugr.v with the encoder ser_hop; the documents
-   of function values nested inside) is unchanged: same edges, same metadata, same parents, same operations except
-   that the description of an Extension operation may have become that of a definition filed under its name *)
+   of function values nested inside constants) is unchanged: same edges, same metadata, same parents, identical
+   constants, same operations except that the description of an Extension operation at a node may have become
+   that of a definition filed under its name *)
 Theorem C11_hugr_document_unchanged : forall reg, RegWF reg ->
   (forall h s, consistent_hugr reg h = true -> hugr_doc h = Some s ->
      exists s', hugr_doc (resolve_extensions reg h) = Some s' /\ SameDoc reg s s') /\
@@ -216,7 +228,7 @@ Theorem C11_hugr_port_types : forall reg h i k,
                lookup_op reg (c_ext c) (c_name c) <> None /\
                port_type (resolve_extensions reg h) i k = option_map (resolve_ty reg) (port_type h i k)) /\
   (RegWF reg -> port_type_rel reg (port_type h i k) (port_type (resolve_extensions reg h) i k)) /\
-  (forall n, get_node h i = Some n -> hop_all (untouchable_op reg) (SerialHugr.n_op n) = true ->
+  (forall n, get_node h i = Some n -> hop_holds (untouchable_op reg) (SerialHugr.n_op n) = true ->
              port_type (resolve_extensions reg h) i k = port_type h i k) /\
   (RegWF reg -> consistent_hugr reg h = true ->
      option_map tbound (port_type (resolve_extensions reg h) i k) = option_map tbound (port_type h i k) /\
@@ -234,7 +246,8 @@ Proof. exact hugr_monitor_sound_thm. Qed.
 
 (* ---- the guards hold of a HUGR with a hole, an opaque operation with more recorded out ports than its signature,
    value and order links, and a constant whose sum value holds a function value whose body holds the operation
-   again; resolution changes it, the document changes in descriptions only, a port type changes to its resolved form *)
+   again; resolution changes the node's operation, the document changes in that description only, a port type
+   changes to its resolved form, and the constant's entry - with the resolvable operation inside - is unchanged *)
 Example C11_hugr_example :
   RegWF Ex.reg /\ consistent_hugr Ex.reg ExH.h = true /\ hugr_all (untouchable_op Ex.reg) ExH.h = false /\
   get_node ExH.h 1 = None /\
@@ -243,7 +256,8 @@ Example C11_hugr_example :
                 doc_eqb s s' = false /\ same_doc_b Ex.reg s s' = true) /\
   (exists t, port_type ExH.h 2 0 = Some t /\ port_type (resolve_extensions Ex.reg ExH.h) 2 0 = Some (resolve_ty Ex.reg t) /\
              ty_eqb (resolve_ty Ex.reg t) t = false) /\
-  port_type ExH.h 2 1 = None.
+  port_type ExH.h 2 1 = None /\
+  get_node (resolve_extensions Ex.reg ExH.h) 3 = get_node ExH.h 3 /\ hugr_all (untouchable_op Ex.reg) ExH.body = false.
 Proof. exact exh_nontrivial. Qed.
 
 Print Assumptions C11_resolve_exactly_when_defined.
@@ -267,4 +281,4 @@ Print Assumptions C11_document_frame_through_enc.
 Print Assumptions C11_hugr_port_types.
 Print Assumptions C11_hugr_monitor_sound.
 Print Assumptions C11_hugr_reaches_every_depth.
-Print Assumptions C11_hugr_function_values_by_the_same_loop.
+Print Assumptions C11_hugr_constants_untouched.
